@@ -36,6 +36,11 @@ import (
 //   c15 hold <c> <point>      hold the next goroutine of <c> that reaches the hook point
 //   c15 wheld <c> <point>     wait until a goroutine is held there
 //   c15 release <c> <point>
+//   c15 flood <c> <k> <v> <n> the service emits up to n values v, v+1, ... on channel k and stops at
+//                             the first one no forwarder takes within 150 ms (how many are taken
+//                             depends on the schedule: the observation is always "ok")
+//   c15 wexit <c> <n>         wait until n forwarding routines have ended (hook forwarder-exit;
+//                             counted per process, so only for single-connection cases)
 //   c15 alive                 a fresh connection streams one value and ends normally
 //
 // Every wait is bounded (c15wait); "timeout" is an observation.
@@ -140,7 +145,14 @@ var (
 
 func c15tag(conn string) []byte { return []byte("#" + conn + "#") }
 
+// c15points counts how often each hook point was reached in this process.
+var c15points = map[string]int{}
+
 func c15hook(name string, key interface{}) {
+	c15hmu.Lock()
+	c15points[name]++
+	c15hcond.Broadcast()
+	c15hmu.Unlock()
 	b, ok := key.([]byte)
 	if !ok {
 		return
@@ -376,6 +388,45 @@ func (e *c15env) do(tk []string) string {
 		case <-time.After(c15wait):
 			return "timeout"
 		}
+	case len(tk) == 6 && tk[1] == "flood":
+		k, err1 := strconv.Atoi(tk[3])
+		v, err2 := strconv.Atoi(tk[4])
+		n, err3 := strconv.Atoi(tk[5])
+		if err1 != nil || err2 != nil || err3 != nil {
+			return "bad-op"
+		}
+		st := e.svcStream(tk[2], k)
+		if st == nil {
+			return "ok"
+		}
+		func() {
+			defer func() { recover() }()
+			for i := 0; i < n; i++ {
+				select {
+				case st.ch <- &C15Val{Conn: string(c15tag(tk[2])), K: int64(k), V: int64(v + i)}:
+				case <-time.After(150 * time.Millisecond):
+					return
+				}
+			}
+		}()
+		return "ok"
+	case len(tk) == 4 && tk[1] == "wexit":
+		n, err := strconv.Atoi(tk[3])
+		if err != nil {
+			return "bad-op"
+		}
+		deadline := time.Now().Add(c15wait)
+		timer := time.AfterFunc(c15wait, func() { c15hmu.Lock(); c15hcond.Broadcast(); c15hmu.Unlock() })
+		defer timer.Stop()
+		c15hmu.Lock()
+		defer c15hmu.Unlock()
+		for c15points["forwarder-exit"] < n {
+			if time.Now().After(deadline) {
+				return "timeout"
+			}
+			c15hcond.Wait()
+		}
+		return "ok"
 	case len(tk) == 4 && tk[1] == "hold":
 		c15hmu.Lock()
 		c15holds[tk[2]+" "+tk[3]] = &c15holdT{armed: true, release: make(chan struct{})}
@@ -521,6 +572,10 @@ func c15oracle(cs *h.Case) {
 		case "wstop":
 			if obs != "ok" {
 				cs.Fail("c15:not-stopped", fmt.Sprintf("op %d %q: the service was not told to stop (%s)", i, op, obs))
+			}
+		case "wexit":
+			if obs != "ok" {
+				cs.Fail("c15:goroutine-stuck", fmt.Sprintf("op %d %q: a forwarding routine never ended although its service closed the channel (%s)", i, op, obs))
 			}
 		case "wheld":
 			if obs != "ok" {
@@ -704,6 +759,31 @@ func (g *c15g) forwarderRace(c string, p int, how string) []string {
 	return ops
 }
 
+// the adapter is busy (held in front of a further message) while the client
+// sends more messages than clientInputs holds, then the client leaves
+func (g *c15g) inputsOverflow(c string, p, extra int, how string) []string {
+	ops := []string{"c15 open " + c + " fresh", "c15 wstart " + c + " 0"}
+	ops = append(ops, g.values(c, 0, p, 1)...)
+	ops = append(ops, "c15 hold "+c+" adapter-receive")
+	for i := 0; i < extra; i++ {
+		ops = append(ops, "c15 csend "+c+" reuse0")
+	}
+	ops = append(ops, "c15 wheld "+c+" adapter-receive", "c15 cleave "+c+" "+how, "c15 release "+c+" adapter-receive",
+		"c15 wstop "+c+" 0", "c15 svcclose "+c+" 0", "c15 wexit "+c+" 1")
+	return ops
+}
+
+// the client leaves first and the service goes on emitting more than outChan
+// holds before it closes its channel: no forwarder may be left behind
+func (g *c15g) floodAfterLeave(c string, p, n int, how string) []string {
+	ops := []string{"c15 open " + c + " fresh", "c15 wstart " + c + " 0"}
+	ops = append(ops, g.values(c, 0, p, 1)...)
+	ops = append(ops, "c15 cleave "+c+" "+how, "c15 wstop "+c+" 0", fmt.Sprintf("c15 flood %s 0 %d %d", c, g.val+1, n),
+		"c15 svcclose "+c+" 0", "c15 wexit "+c+" 1")
+	g.val += n
+	return ops
+}
+
 // a bad first message
 func (g *c15g) badFirst(c string, what string) []string {
 	return []string{"c15 open " + c + " " + what, "c15 cread " + c}
@@ -761,6 +841,9 @@ func c15genCases(c *h.Ctx, yield func(*h.Case)) {
 		emit("corpus:blocked-emit", ops)
 	}
 
+	emit("corpus:inputs-overflow", g.inputsOverflow("s0", 1, 14, "close"))
+	emit("corpus:flood-after-leave", g.floodAfterLeave("s0", 1, 130, "drop"))
+
 	// every stream length, every leave point (quick: lengths up to 8, thorough: up to 20)
 	maxN := c.Pick(8, 20)
 	for n := 0; n <= maxN; n++ {
@@ -781,6 +864,10 @@ func c15genCases(c *h.Ctx, yield func(*h.Case)) {
 		emit("reader-race", g.readerRace("s0", r.Intn(4), []string{"fresh", "garbage", "failing", "reuse0"}[r.Intn(4)]))
 		emit("adapter-race", g.adapterRace("s0", r.Intn(4)))
 		emit("forwarder-race", g.forwarderRace("s0", r.Intn(4), how()))
+		if it%5 == 0 {
+			emit("inputs-overflow", g.inputsOverflow("s0", r.Intn(3), 11+r.Intn(12), how()))
+			emit("flood-after-leave", g.floodAfterLeave("s0", r.Intn(3), 105+r.Intn(60), how()))
+		}
 		emit("bad-first", g.badFirst("s0", []string{"garbage", "failing"}[r.Intn(2)]))
 		// several streams in parallel on one server
 		var lists [][]string
